@@ -523,6 +523,9 @@ impl Value {
                         "The value's size ({}) is not the right length for a string UUID (>=32)",
                         string.len()
                     ))
+                } else if let Err(e) = Uuid::from_str(string) {
+                    // It is written as is, so it has to be readable as a UUID
+                    Some(format!("The value '{string}' is not a UUID: {e}"))
                 } else {
                     None
                 }
